@@ -15,6 +15,7 @@ _GEN = {
     "C14": (["FuncsTak.lean", "FuncsMove.lean", "FuncsSym.lean"], ["FNMOVE", "FNSYM"]),
     "C15": (["FuncsTak.lean", "FuncsMove.lean", "FuncsSym.lean"], ["FNSYM"]),
     "C20": (["FuncsTak.lean", "FuncsMove.lean", "FuncsFPA.lean"], ["FNMOVE", "FNFPA"]),
+    "C08": (["FuncsTak.lean"], ["FNHASH"]),
     "C18": (["FuncsTak.lean", "FuncsOver.lean", "FuncsEval.lean"], ["FNEVAL"]),
 }
 for _pid in list(PROPS):
